@@ -130,6 +130,7 @@ def _prod(root, p):
 def ask_everything(x, root, flavors):
     """every query of the property, through the cache and from the files"""
     e = c06._eups()
+    from eups import utils
     ans = {"decl": [], "tag": [], "pdecl": [], "ptag": [], "list": []}
     flavors = list(dict.fromkeys(flavors))
     for mode, nc in (("cache", False), ("files", True)):
@@ -158,7 +159,7 @@ def ask_everything(x, root, flavors):
             for p in x.findProducts(n, eupsPathDirs=[os.path.join(root, s)]):
                 ans["list"].append(["cache"] + _prod(root, p))
             db = e.db.Database(ups_db(root, s))
-            for p in db.findProducts(n, flavors=flavors):
+            for p in db.findProducts(n, flavors=list(dict.fromkeys(utils.Flavor().getFallbackFlavors(x.flavor, True)))):
                 p.db = ups_db(root, s)
                 ans["list"].append(["files"] + _prod(root, p))
     for k in ans:
@@ -196,7 +197,7 @@ def _proc_child(root, proc):
         cs["armed"] = False
     if proc.get("q"):
         from eups import utils
-        out["ans"] = ask_everything(x, root, utils.Flavor().getFallbackFlavors(proc["f"], True))
+        out["ans"] = ask_everything(x, root, utils.Flavor().getFallbackFlavors(proc["f"], True) + ALLFLAVORS)
     return out
 
 
@@ -390,7 +391,7 @@ def proc_line(p):
 
 
 def case_line(case, v_rm=False, v_init=False):
-    univ = ";".join([",".join(NAMES), ",".join(VERSIONS), ",".join(TAGS)])
+    univ = ";".join([",".join(NAMES), ",".join(VERSIONS), ",".join(TAGS), ",".join(ALLFLAVORS)])
     return "\t".join(["case", "1" if v_rm else "0", "1" if v_init else "0", ",".join(STACKS), univ,
                       "|".join(proc_line(p) for p in case["procs"])])
 
@@ -610,18 +611,43 @@ def first_diff(case, mres, obs):
     return None
 
 
+FLAVOR_COL = {"decl": 4, "tag": 4, "pdecl": 3, "ptag": 3, "list": 4}
+
+
 def oracle(case, obs):
     """the property, on the implementation alone: every answer through the cache equals the answer from the files.
-    -> (process index, kind, answers from the files, answers through the cache) or None"""
+    -> (process index, kind, answers only the files give, answers only the cache gives) or None.
+    Answers about the flavors the asking instance consults (its own and its fall-backs) come first; a difference
+    that concerns only a flavor outside that list is reported under its own kind (unconsulted-flavor)."""
+    foreign = None
     for i, (p, o) in enumerate(zip(case["procs"], obs)):
         if not o.get("ans"):
             continue
+        consulted = [p["f"], "generic"]
         for k in ("decl", "tag", "pdecl", "ptag", "list"):
-            c = sorted(r[1:] for r in o["ans"][k] if r[0] == "cache")
-            f = sorted(r[1:] for r in o["ans"][k] if r[0] == "files")
-            if c != f:
-                return i, "incoherent-" + k, [r for r in f if r not in c], [r for r in c if r not in f]
-    return None
+            col = FLAVOR_COL[k]
+            for own in (True, False):
+                rows = [r for r in o["ans"][k] if (r[col] in consulted) == own]
+                c = sorted(r[1:] for r in rows if r[0] == "cache")
+                f = sorted(r[1:] for r in rows if r[0] == "files")
+                if c == f:
+                    continue
+                only_f, only_c = [r for r in f if r not in c], [r for r in c if r not in f]
+                if not own:
+                    if foreign is None:
+                        foreign = (i, "unconsulted-flavor-" + k, only_f, only_c)
+                    continue
+                # the label says which clause broke: a declaration (or tag) the files have and the cache lacks,
+                # one only the cache has, or the same declarations with different tag lists
+                bare = lambda rows: sorted(r[:-1] for r in rows) if k in ("decl", "pdecl", "list") else rows
+                if bare(c) == bare(f):
+                    what = "tags-of-version"
+                elif [r for r in bare(f) if r not in bare(c)]:
+                    what = "missing-from-cache"
+                else:
+                    what = "only-in-cache"
+                return i, "incoherent-%s-%s" % (k, what), only_f, only_c
+    return foreign
 
 
 def evaluate(ctx, cases, v_rm=False, v_init=False):
@@ -750,7 +776,9 @@ def configure(ctx):
         "global tags only; no user tags (the user tag directory holds no chain files); _EUPS_ASSUME_CACHES_UP_TO_DATE unset",
         "a process dies only between two groups or between the database call of a group and its cache update "
         "(death inside the database call is C08)"]
-    ctx.matchers = {}
+    # open finding: an Eups that loaded its stacks from cache files holds its own flavor and the fall-backs only,
+    # and answers "not declared" for any other flavor (after a rebuild in the same process it holds every flavor)
+    ctx.matchers = {"c07.unconsulted_flavor": lambda f: f["kind"].startswith("unconsulted-flavor-")}
 
 
 def run(ctx):
@@ -758,7 +786,7 @@ def run(ctx):
     ctx.check_theorems()
     try:
         process(ctx, evaluate(ctx, corpus_cases()))
-        ncases = ctx.size(260, 3000)
+        ncases = ctx.size(1200, 16000)
         cases = [gen_case(ctx.rng, max_procs=ctx.rng.choice([6, 10, 16, 16])) for _ in range(ncases)]
         for c in cases[:2]:
             ctx.sample(c)
